@@ -280,6 +280,13 @@ const fn contains_nonascii(x: usize) -> bool {
 #[cold]
 #[track_caller]
 pub(crate) fn slice_error_fail(s: &JavaStr, begin: usize, end: usize) -> ! {
+    // VERIF MODEL (cfg(kani) only): the slicing failure still panics (and is therefore still
+    // reported by the model checker); only the construction of the panic *message* – which
+    // itself slices, searches char boundaries and formats – is cut.
+    #[cfg(kani)]
+    {
+        panic!("VERIF-MODEL: JavaStr slice index out of bounds or not on a char boundary");
+    }
     const MAX_DISPLAY_LENGTH: usize = 256;
     let trunc_len = s.floor_char_boundary(MAX_DISPLAY_LENGTH);
     let s_trunc = &s[..trunc_len];
